@@ -764,6 +764,7 @@ func main() {
 	genMigrate(repo, out, statuses)
 	genSchema(repo, out)
 	genTimeCounter(repo, out)
+	genDecide(repo, out)
 
 	hdr := "(* GENERATED by dt2coq from /repo on every run. Do not edit. *)\nFrom Coq Require Import List NArith String.\nImport ListNotations.\nLocal Open Scope N_scope.\n\n"
 
